@@ -87,9 +87,11 @@ def judge(programs, out, compression):
         if any(c[0] in ("close", "server_close") for p in programs for c in p):
             c12.append("close() raced with a send and the wire is no longer a sequence of whole frames (%s): the peer cannot read the Close frame" % err)
         return c11, c12
-    for res in out["results"]:
-        for r in res:
+    for prog, res in zip(programs, out["results"]):
+        for c, r in zip(prog, res):
             if isinstance(r, str):
+                if r == "exc:TypeError" and c[0] == "send" and not isinstance(c[2], bytes):
+                    continue          # an argument of a type the API does not take: refused, nothing written
                 c11.append("a call raised %s" % r)
     # accepted sends per thread, in call order
     per_thread = {}
@@ -125,8 +127,9 @@ def judge(programs, out, compression):
             continue
         exp = lst[k]
         seen[f["tid"]] = k + 1
-        if payload != exp[2]:
-            c11.append("thread %s: frame %d carries %r, the call sent %r (order or content broken)" % (f["tid"], k, payload[:20], exp[2][:20]))
+        want = exp[5] if len(exp) > 5 else exp[2]      # (what the argument held when the call was made, for mutable arguments)
+        if payload != want:
+            c11.append("thread %s: frame %d carries %r, the call sent %r (order or content broken)" % (f["tid"], k, payload[:20], bytes(want[:20])))
     for tid, lst in per_thread.items():
         if seen.get(tid, 0) != len(lst):
             c11.append("thread %s: %d accepted sends but %d frames on the wire" % (tid, len(lst), seen.get(tid, 0)))
@@ -213,5 +216,53 @@ def run_programs_lines(rep, pid, name, program_sets, limit, which, two=0, offset
     rep.families.append(dict(name=name, cases=total, rule="the same real threads, but every executed source line of lomond/{frame,compression,websocket,session,mask,message,stream}.py is a scheduling point: thread 0 is preempted once, at each line in turn, thread 1 then runs all / half / a quarter of its steps; and schedules with a second preemption of thread 0 (p lines, a fraction of thread 1, r more lines, the rest of thread 1, the rest of thread 0; all triples or an even sample); judged on the decoded wire (whole frames, per-thread order and content, the peer inflates in wire order)"))
 
 
+def _fresh_sched_worker(args):
+    (programs, schedule, compression), _opts = args
+    from . import sched as _s
+    out = _s.run_schedule(programs, schedule, compression, lines=True)
+    taken = [c[1] for c in out["choices"] if c[1] is not None]
+    return dict(wire=out["wire"], results=out["results"], deadlock=out.get("deadlock"), log=[], choices=[],
+                steps=[sum(1 for t in taken if t == k) for k in (0, 1)])
+
+
+def _one_fresh(job):
+    return fam.fresh_run([job], runner="harness.conc:_fresh_sched_worker", timeout=300)[0]
+
+
+def run_programs_fresh(rep, name, program_sets, per, which):
+    """the first execution in a process: every schedule below runs in an interpreter of its own (lazily built tables, first-use
+    initialisation and the like exist only once per process); thread 0 is preempted at `per` of its source lines, thread 1 runs
+    to its end, thread 0 finishes"""
+    jobs = []
+    for programs, compression in program_sets:
+        if len(programs) < 2:
+            continue
+        # how many source lines each thread executes is itself measured in a fresh interpreter (first use costs extra lines)
+        base = _one_fresh((programs, [], compression))
+        if not isinstance(base, dict):
+            rep.broken("family %s: the base schedule could not be run in a fresh interpreter: %r" % (name, base))
+            continue
+        n0, n1 = base["steps"]
+        if not n0 or not n1:
+            continue
+        pts = sorted(set(int(i * n0 / float(per)) for i in range(per)))
+        for p in pts:
+            jobs.append((programs, [0] * p + [1] * (n1 + 5) + [0] * (n0 + 5), compression))
+    outs = fam.pool().map(_one_fresh, jobs) if jobs else []
+    for (programs, schedule, compression), out in zip(jobs, outs):
+        rep.add_case(repr(("fresh", programs, compression, schedule.count(0), len(schedule))))
+        if not isinstance(out, dict):
+            rep.broken("family %s: a schedule could not be run in a fresh interpreter: %r" % (name, out))
+            continue
+        c11, c12 = judge(programs, out, compression)
+        complaints = c11 if which == "c11" else c12
+        if complaints:
+            rep.violation(complaints[0] + " (first execution in a fresh interpreter; line-level schedule)",
+                          scenario=dict(programs=_js(programs), compression=compression, schedule=schedule, lines=True, fresh=True),
+                          expected="see statement", actual=dict(wire=[(t, b.hex()[:80]) for t, b in out["wire"]], results=out["results"]), family=name)
+    rep.families.append(dict(name=name, cases=len(jobs), rule="line-level schedules (one preemption of thread 0, at %d of its source lines) each run in an interpreter of its own: what is built lazily on first use is built under the race" % per))
+
+
 def _js(programs):
-    return [[[x.hex() if isinstance(x, bytes) else x for x in c] for c in p] for p in programs]
+    # (a bytearray is ONE object shared by all the calls that name it: stored with a marker so that a replay shares it again)
+    return [[[x.hex() if isinstance(x, bytes) else ({"shared_bytearray": bytes(x).hex()} if isinstance(x, bytearray) else x) for x in c] for c in p] for p in programs]
